@@ -123,7 +123,7 @@ Open Scope Z_scope.
     },
     "C05": {
         "title": "Unit invariance: times scale linearly with slowness and with length - exact arithmetic over the generated kernels",
-        "header": HDR_R.format(imports="From FT.proofs Require Import Sweep2dProofs OperatorsR.\nFrom FT.proofs Require Operators3R."),
+        "header": HDR_R.format(imports="From FT.model Require Import Api.\nFrom FT.proofs Require Import Sweep2dProofs OperatorsR ApiProofs.\nFrom FT.proofs Require Operators3R."),
         "theorems": [
             ("t_ana_scale_slowness", "OperatorsR.t_ana_scale_slowness", "analytic seed: slowness scaling"),
             ("t_ana_scale_length", "OperatorsR.t_ana_scale_length", "analytic seed: length scaling (source position in grid units is unchanged)"),
@@ -135,6 +135,8 @@ Open Scope Z_scope.
             ("sweep_scale_length", "OperatorsR.sweep_scale_length_dargs", "one node update commutes with length scaling (same caveat)"),
             ("t_ana_3d_scale_slowness", "Operators3R.t_ana_scale_slowness", "3D seed"),
             ("t_ana_3d_scale_length", "Operators3R.t_ana_scale_length", "3D seed"),
+            ("slowness_handed_to_kernel_scales", "ApiProofs.slowness_of_scale", "API layer (hand model coq/model/Api.v): dividing every velocity by c multiplies the slowness model handed to the kernel by c"),
+            ("ray_default_budget_unit_invariant", "ApiProofs.ray_max_step_unit_invariant", "API layer: the default ray budget int(2*diagonal/step) is unchanged when all lengths are rescaled"),
         ],
         "examples": [],
     },
@@ -181,7 +183,7 @@ Open Scope Z_scope.
     },
     "C06": {
         "title": "Origin invariance: translating the axes, the source and the query points by one common vector leaves interpolated values unchanged (exact arithmetic over the generated interpolators); the solver kernels only ever receive source - origin.",
-        "header": HDR_R.format(imports="From FT.proofs Require Import SSR InterpR Interp3R VinterpR Vinterp3R TranslateR."),
+        "header": HDR_R.format(imports="From FT.model Require Import Api.\nFrom FT.proofs Require Import SSR InterpR Interp3R VinterpR Vinterp3R TranslateR ApiProofs."),
         "theorems": [
             ("axis_shift", "TranslateR.axis_shift", "a translated axis is an axis"),
             ("searchsorted_commutes_with_translation", "TranslateR.ssr_shift", "cell location commutes with translation, for any array"),
@@ -190,6 +192,8 @@ Open Scope Z_scope.
             ("vinterp2d_translate", "TranslateR.vinterp2d_translate", "traveltime evaluation (source translated too): every case - outside, source cell, zero corner, far faces, generic"),
             ("vinterp3d_translate", "TranslateR.vinterp3d_translate", "3D"),
             ("omitting_origin_is_zero_origin", "TranslateR.shift_axis_0", "translating by zero changes nothing"),
+            ("solver_receives_source_minus_origin", "ApiProofs.solve_args_origin_invariant", "API layer (hand model coq/model/Api.v, tied by harness/corr_api.py run_api): the solver kernel is handed (1/grid, spacing, source - origin), which does not change when origin and source are translated together"),
+            ("node_axes_translate", "ApiProofs.axis_nodes_translate", "API layer: the node axes origin + spacing*k of a translated origin are the translated axes"),
         ],
         "examples": [],
     },
